@@ -162,6 +162,8 @@ def iterate_concrete(eng, v):
         return npmodels.narr_rows(eng, v)
     if isinstance(v, (range, str, dict, set, frozenset)):
         return list(v)
+    if type(v).__name__ == "S2Arr" and v.transposed:  # k x n with concrete k: iterating / unpacking gives its k rows
+        return [v.__pyvc_getitem__(eng, i) for i in range(v.k)]
     if isinstance(v, Iter):
         if v.consumed:
             return []
@@ -967,7 +969,16 @@ def comprehension_over(eng, n, fr, kind, first):
 
 # ------------------------------------------------------------- generators
 def run_generator(eng, func, fr):
-    """Generator functions are run eagerly; the yielded values form a one-shot Iter."""
+    """Generator functions are run eagerly; the yielded values form a one-shot Iter.
+    Contract option `generator_hook=fn(eng, func, frame)` (of the carrier being verified) may return another value for the
+    call (e.g. a LAZY sequence for a generator whose items have side effects, pyvc/ext_C19.py) or NotImplemented."""
+    for c in (getattr(eng, "cur_contract", None), eng.registry.get(func.key)):  # the carrier's contract, or the generator's own
+        hook = c.options.get("generator_hook") if c is not None else None
+        if hook is not None:
+            r = hook(eng, func, fr)
+            if r is not NotImplemented:
+                return r
+            break
     out = PList([])  # visible to loop contracts as `__yield__` (types / modifies) so that a yielding loop can be cut
     fr.yield_sink = out
     fr.vars["__yield__"] = out
@@ -1322,7 +1333,18 @@ EXTRA_METHODS = {}
 EXTRA_ELEMENT_HOOKS = []
 
 
+def _b_chain_from_iterable(eng, args, kwargs):
+    """itertools.chain.from_iterable(X) = itertools.chain(*X)"""
+    sv = args[0]
+    chain = lookup_model(itertools.chain)
+    if hasattr(sv, "__pyvc_star__"):
+        return chain(eng, [sv.__pyvc_star__(eng)], {})
+    return chain(eng, list(eng.iterate_concrete(sv)), {})
+
+
 def lookup_model(fn):
+    if fn == itertools.chain.from_iterable:
+        return _b_chain_from_iterable
     try:
         m = EXTRA_MODELS.get(fn)
         if m is None:
